@@ -202,3 +202,57 @@ fn c20_datetime_to_array_weekday() {
         core::mem::forget(a);
     }
 }
+
+fn bad_field(k: usize) {
+    let bad = if kani::any() { MV::Float(kani::any()) } else { MV::Null };
+    let mut v: [MV; 6] = [MV::Int(2000), MV::Int(0), MV::Int(1), MV::Int(0), MV::Int(0), MV::Int(0)];
+    v[k] = bad;
+    let r = array_to_datetime(&v);
+    assert!(r.is_none());
+    kani::cover!(k == 2 && matches!(v[2], MV::Float(f) if f == 1.5));
+    kani::cover!(k == 0 && matches!(v[0], MV::Float(f) if f.is_nan()));
+    core::mem::forget((r, v));
+}
+
+//@ tier: quick
+//@ inst: V = MV
+//@ funcs: time::array_to_datetime::<MV>
+//@ bounds: a valid date-time array in which ONE of the fields year, month, day, hour, minute (case-split on the position) is replaced by any f64 (integral or not, NaN, infinite) or by a non-number
+//@ asserts: malformed broken-down arrays are rejected: a non-integer value in an integer field never yields a date-time (no truncation of 1.5 to 1, no NaN read as 0)
+#[kani::proof]
+#[kani::unwind(8)]
+#[kani::stub(<jiff::Error as core::fmt::Display>::fmt, no_fmt)]
+fn c20_bdt_rejects_non_integer_fields() {
+    bad_field(0);
+    bad_field(1);
+    bad_field(2);
+    bad_field(3);
+    bad_field(4);
+}
+
+//@ tier: attempt
+//@ inst: V = MV
+//@ funcs: time::datetime_to_array::<MV> (seconds entry), jiff::civil::DateTime::constant
+//@ bounds: the fixed date 2000-02-29 with every time of day: hour, minute, second and nanosecond symbolic (a symbolic DATE does not decide: jiff's weekday / day-of-year arithmetic)
+//@ asserts: entry 5 is the integer second exactly when the nanosecond part is 0, otherwise the float second + ns/10^9 (so .5, .25 and every other fraction survive gmtime); entries 3 and 4 are hour and minute; the date entries are those of 2000-02-29 (Tuesday, day 59)
+#[kani::proof]
+#[kani::unwind(10)]
+fn c20_datetime_to_array_seconds() {
+    let (h, mi, s): (i8, i8, i8) = (kani::any(), kani::any(), kani::any());
+    let ns: i32 = kani::any();
+    kani::assume(0 <= h && h < 24 && 0 <= mi && mi < 60 && 0 <= s && s < 60 && 0 <= ns && ns < 1_000_000_000);
+    let dt = DateTime::constant(2000, 2, 29, h, mi, s, ns);
+    let a: [MV; 8] = datetime_to_array(dt);
+    let int = |k: usize| if let MV::Int(i) = a[k] { i as i64 } else { i64::MIN };
+    assert!(int(0) == 2000 && int(1) == 1 && int(2) == 29 && int(3) == h as i64 && int(4) == mi as i64);
+    assert!(int(6) == 2 && int(7) == 59);
+    if ns == 0 {
+        assert!(int(5) == s as i64);
+    } else {
+        assert!(matches!(a[5], MV::Float(f) if f == s as f64 + ns as f64 / 1e9));
+    }
+    kani::cover!(ns == 500_000_000);
+    kani::cover!(ns == 0 && s == 59);
+    kani::cover!(ns == 1);
+    core::mem::forget(a);
+}
